@@ -103,6 +103,34 @@ FIRST_RUN_MISSED = {  # seeded changes the checks did NOT catch when first confr
     "C19-14": "a tree was never edited in place between two evaluations",
     "C20-13": "white-space-only text inside protected elements was accepted in any form; it must now be preserved exactly",
     "C20-14": "no characters with a compatibility decomposition (superscript two, fi ligature, acute accent, fullwidth less-than)",
+    "C01-15": "a parent was never re-validated after its children were rearranged in place (hard shift, rename, list items exchanged - same length)",
+    "C04-15": "beyond the bound: no parent with 65+ children in C04 (C01's pumped words had them); every repeatable child is now repeated 65 and 300 times",
+    "C04-16": "exit 1 without a VIOLATION line: a bound written as a string crashed the automaton builder; checks other than C10 now drive the validator over the names of a rule that does not parse",
+    "C05-15": "no two leaves with the same name, text and attribute names of which a later one is invalid by an attribute value",
+    "C05-16": "beyond the bound: no tree with more than 100 errors; trees with 103, 132 and 1 102 errors were added",
+    "C06-15": "beyond the bound: no tree deeper than 6; chains of 13, 30, 70 and wide / wide-and-deep shapes with every field set were added",
+    "C06-16": "no two prefixes bound to one URI",
+    "C07-15": "beyond the bound: no value with more than 32 markup characters; long values were added",
+    "C07-16": "beyond the bound: no start tag wider than 120 columns; elements with 5 / 9 / 14 attributes (values with leading blanks, quotes, markup), qualified attributes and 8 namespace declarations were added",
+    "C08-16": "beyond the bound: no text longer than an exporter's line width, and blank-only / literal text was compared up to white space; the text of a childless element must now be stable exactly",
+    "C09-15": "beyond the bound: no parent with 9+ children; every two-name pattern on 9-10 (thorough 9-12) children x every single shift, and sparse patterns on 17-70 children",
+    "C09-16": "beyond the bound: no node with 12+ ancestors; chains of 13, 14, 30, 64 nodes with all queries",
+    "C11-16": "beyond the bound: no node with 17+ children among the bases (and the snapshot crashed on a child list holding strings)",
+    "C12-15": "beyond the bound: no copied node with more than 10 children",
+    "C12-16": "beyond the bound: no copy of more than 4 096 nodes (a 4 226-node tree is copied now)",
+    "C13-15": "beyond the bound: two prefixes only; a parent with up to six prefixes x every subset bound by the child was added",
+    "C13-16": "beyond the bound: no chain deeper than 4; chains of 26, 30, 64 with declarations and removals at several depths",
+    "C14-15": "beyond the bound: at most 12 nodes alive; 70 000 nodes are now created / copied / imported in one process",
+    "C14-16": "a child was never replaced by one of its own siblings (in the BFS the new child is always a root)",
+    "C16-15": "beyond the bound: no tree with 257+ ids",
+    "C16-16": "copied plus own roles never exceeded three",
+    "C17-15": "beyond the bound: no parent with 13+ children (L <= 6-8)",
+    "C18-15": "beyond the bound: no text longer than 64 characters",
+    "C18-16": "attribute values were always strings",
+    "C19-15": "no rule-bearing node below an attribute (creator of a data source in an attribute's own methods, nine levels down)",
+    "C19-16": "no para nested in the list of another para",
+    "C20-15": "beyond the bound: no gap of 9+ blanks (strings up to length 8-10 only)",
+    "C20-16": "beyond the bound: no document longer than 4 096 bytes",
 }
 NOT_DETECTED_BY_DESIGN = {"C19-5", "C09-8"}
 ids = sys.argv[1:] or sorted(os.listdir(os.path.join(HERE, "seeded")))
